@@ -88,3 +88,35 @@ Print Assumptions C19_file_sizes.
 Print Assumptions C19_readd_no_growth.
 Print Assumptions C19_links_no_growth.
 Print Assumptions C19_nonvacuous.
+
+(* ---- the multi-block stem code as the SOURCE has it ----------------------------------
+   GenNode.v is regenerated on every run from LRUTrieNode.read / write / set_stem /
+   __set_default_data (traph/lru_trie/node.py) and helpers.detailed_chunks_iter, over the
+   MemoryStorage object translated from the source (GenStorage.v).  GenNodeFacts.v proves,
+   for every stem length: writing a new node appends exactly the blocks the model accounts
+   for (the main block and one tail block per 74-byte chunk: Tst.node_blocks, hence
+   nblk (stem) blocks), and a later write of the same node rewrites one block in place. *)
+From Traph Require GenStorage GenNode GenNodeFacts.
+Import GenStorage GenNode GenNodeFacts.
+Theorem C19_source_new_node_blocks : forall sg st, pm_block_size sg = py_node_block_size ->
+  let nd := py_node_set_default_data py_node_new (Some st) in
+  let a := N.of_nat (length (pm_array sg)) in
+  let d := mkNd a 0 st false false false true 0 0 0 in
+  let nd' := fst (py_node_write nd sg) in let sg' := snd (py_node_write nd sg) in
+  pm_array sg' = pm_array sg ++ flat_map encode_tblock (node_blocks d 0 0 0) /\
+  pm_block_size sg' = pm_block_size sg /\ pm_cursor sg' = N.of_nat (length (pm_array sg')) /\
+  nd_block nd' = Some a /\ nd_exists nd' = true /\ nd_tail nd' = nd_tail nd /\
+  nd_data nd' = nd_data nd /\ py_node_stem nd' = st.
+Proof. exact py_node_write_brand_new. Qed.
+Theorem C19_source_rewrite_in_place : forall nd sg a b,
+  nd_exists nd = true -> nd_block nd = Some a -> nd_data nd = tblock_vals b ->
+  pm_block_size sg = py_node_block_size -> a + 128 <= N.of_nat (length (pm_array sg)) ->
+  let nd' := fst (py_node_write nd sg) in let sg' := snd (py_node_write nd sg) in
+  nd' = nd /\ length (pm_array sg') = length (pm_array sg) /\
+  firstn (N.to_nat a) (pm_array sg') = firstn (N.to_nat a) (pm_array sg) /\
+  GenStorage.py_slice a (a + 128) (pm_array sg') = encode_tblock b /\
+  skipn (N.to_nat a + 128) (pm_array sg') = skipn (N.to_nat a + 128) (pm_array sg) /\
+  pm_block_size sg' = pm_block_size sg /\ pm_cursor sg' = a + 128.
+Proof. exact py_node_write_existing. Qed.
+Print Assumptions C19_source_new_node_blocks.
+Print Assumptions C19_source_rewrite_in_place.
